@@ -343,6 +343,8 @@ def patterns(w, tier):
 def binding_terms(w):
     a, b = g.ID('a', w), g.ID('b', w)
     out = [a, b, g.I(w, 1), g.OP('+', a, b), g.OP('*', a, g.I(w, 3)), g.COND(a, b, g.I(w, 0))]
+    # the expression may mention the wildcard identifiers themselves (X bound to X or to Y, Y inside a bound term)
+    out += [g.ID('X', w), g.ID('Y', w), g.OP('+', g.ID('Y', w), a)]
     if w >= 8:
         out.append(g.CO((g.SL(a, 0, 4), 0, 4), (g.SL(b, 4, w), 4, w)))
         out.append(g.MEM(g.addr_of(w), w))
